@@ -335,7 +335,8 @@ def _oracle(ctx, rep, base):
         # mutating entry points: restore the layout after each batch of one path (cheap: only when something inside changed)
         mpaths = paths if ctx.thorough else [p for i, p in enumerate(paths) if i % 4 == 0 or len(p) < 12]
         for ep, fn in mut.items():
-            for p in mpaths:
+            # (a parquet write per path: the thorough tier takes every path shorter than 14 characters and every 6th of the rest)
+            for p in (mpaths if ep != "write_data_file" or not ctx.thorough else [p_ for i_, p_ in enumerate(mpaths) if len(p_) < 14 or i_ % 6 == 0]):
                 rep.evaluations += 1
                 _AUDIT["log"], _AUDIT["on"] = [], True
                 try:
